@@ -211,12 +211,13 @@ let () = run_lines (fun toks ->
         | Some ((n, d), _) -> sz n ^ " " ^ sz d) in
       fin r bad used (List.length tr) in
     one false ^ " || " ^ one true
-  | "extiter" :: p :: order :: size :: seed :: n :: _ ->
-    let p = zs p in
-    let sz_ = Model.ext_size (zs size) p in
-    let s = ref (Model.giv_ctor_nz (zs seed)) and out = ref [] in
+  | "extiter" :: p :: order :: a1 :: a2 :: n :: basecard :: _ ->
+    (* a1 a2 = the constructor arguments in the order the harness writes them (seed, size); Model.ext_randiter_ctor sorts them out *)
+    let p = zs p and basecard = zs basecard in
+    let (seed, sz_) = Model.ext_randiter_ctor (zs a1) (zs a2) p basecard in
+    let s = ref (Model.giv_ctor_nz seed) and out = ref [] in
     for _ = 1 to int_of_string n do
-      let (cs, s') = Model.ext_randiter (nat (int_of_string order)) (Model.mod_init p) sz_ !s in
+      let (cs, s') = Model.ext_randiter (nat (int_of_string order)) (Model.mod_init basecard) sz_ !s in
       out := ("[" ^ join (List.map sz cs) ^ "]") :: !out; s := s'
     done;
     join (List.rev !out)
